@@ -111,11 +111,13 @@ pub struct ChunkBody {
     produced: usize,
     pended: bool,
     gate: Option<Pin<Box<dyn Future<Output = ()> + Send>>>,
+    /// do not announce the length (size_hint unknown)
+    pub unsized_body: bool,
 }
 
 impl Default for ChunkBody {
     fn default() -> Self {
-        ChunkBody { chunks: VecDeque::new(), pending_every: 0, produced: 0, pended: false, gate: None }
+        ChunkBody { chunks: VecDeque::new(), pending_every: 0, produced: 0, pended: false, gate: None, unsized_body: false }
     }
 }
 
@@ -141,7 +143,7 @@ impl ChunkBody {
                 i = j;
             }
         }
-        ChunkBody { chunks, pending_every, produced: 0, pended: false, gate: None }
+        ChunkBody { chunks, pending_every, produced: 0, pended: false, gate: None, unsized_body: false }
     }
     /// the body yields its first chunk, then waits for `gate` before the rest
     pub fn gated_after_first(mut self, gates: &Gates, name: &str) -> Self {
@@ -184,6 +186,9 @@ impl http_body::Body for ChunkBody {
     }
 
     fn size_hint(&self) -> http_body::SizeHint {
+        if self.unsized_body {
+            return http_body::SizeHint::default();
+        }
         let n: usize = self.chunks.iter().map(|c| c.len()).sum();
         http_body::SizeHint::with_exact(n as u64)
     }
@@ -680,6 +685,12 @@ pub struct ServerSpec {
 
 static UNIX_SEQ: AtomicU64 = AtomicU64::new(0);
 
+thread_local! {
+    /// set by an engine (current_thread runtime) that wants completed graceful servers kept alive
+    pub static PARK_COMPLETED_SERVER: std::cell::Cell<bool> = const { std::cell::Cell::new(false) };
+    pub static PARKED: std::cell::RefCell<Vec<Box<dyn std::any::Any>>> = const { std::cell::RefCell::new(Vec::new()) };
+}
+
 /// Spawn a hyperdriver server on the current runtime.
 pub async fn spawn_server(spec: ServerSpec, log: Arc<Log>, gates: Gates) -> ServerHandle {
     use hyperdriver::server::conn::Acceptor;
@@ -715,12 +726,16 @@ pub async fn spawn_server(spec: ServerSpec, log: Arc<Log>, gates: Gates) -> Serv
             let server = $server;
             if graceful {
                 tokio::spawn(async move {
-                    server
-                        .with_graceful_shutdown(async move {
-                            let _ = rx.await;
-                        })
-                        .await
-                        .map_err(|e| e.to_string())
+                    // awaited by reference; when the engine asks for it (PARK_COMPLETED_SERVER) the completed future is
+                    // kept alive instead of being dropped, like a caller that pins the future and carries on
+                    let mut fut = Box::pin(server.with_graceful_shutdown(async move {
+                        let _ = rx.await;
+                    }));
+                    let r = (&mut fut).await.map_err(|e| e.to_string());
+                    if PARK_COMPLETED_SERVER.with(|p| p.get()) {
+                        PARKED.with(|l| l.borrow_mut().push(Box::new(fut) as Box<dyn std::any::Any>));
+                    }
+                    r
                 })
             } else {
                 tokio::spawn(async move {
@@ -788,6 +803,10 @@ pub struct ReqSpec {
     pub pending_every: usize,
     pub headers: Vec<(String, String)>,
     pub resp_chunk: usize,
+    /// the body does not announce its length (chunked transfer on HTTP/1)
+    pub unsized_body: bool,
+    /// the request is versioned HTTP/1.0 by the caller (the connection still speaks HTTP/1.1)
+    pub http10: bool,
 }
 
 impl ReqSpec {
@@ -801,7 +820,7 @@ impl ReqSpec {
     }
     pub fn build(&self) -> Request<ChunkBody> {
         let uri = format!("{}{}", self.origin, self.path_query());
-        let mut b = Request::builder().method(self.method.clone()).uri(uri).version(if self.h2 { http::Version::HTTP_2 } else { http::Version::HTTP_11 });
+        let mut b = Request::builder().method(self.method.clone()).uri(uri).version(if self.h2 { http::Version::HTTP_2 } else if self.http10 { http::Version::HTTP_10 } else { http::Version::HTTP_11 });
         b = b.header("x-id", self.id).header("x-len", self.body_len as u64);
         if self.resp_chunk > 0 {
             b = b.header("x-resp-chunk", self.resp_chunk as u64);
@@ -809,7 +828,9 @@ impl ReqSpec {
         for (k, v) in &self.headers {
             b = b.header(k.as_str(), v.as_str());
         }
-        b.body(ChunkBody::new(pattern(self.id, self.body_len), self.chunk, self.pending_every)).unwrap()
+        let mut body = ChunkBody::new(pattern(self.id, self.body_len), self.chunk, self.pending_every);
+        body.unsized_body = self.unsized_body;
+        b.body(body).unwrap()
     }
 }
 
